@@ -214,7 +214,11 @@ func mutateSeeded(b []byte, seed uint64) ([]byte, string) {
 		return b, "no-members"
 	}
 	p := paths[r.Intn(len(paths))]
-	op := Pick(r, mutOps)
+	// half of the time one of the fifteen structural operations, else one of the special replacement values
+	op := Pick(r, mutOps[:15])
+	if r.Bool() {
+		op = Pick(r, mutOps)
+	}
 	v = setPath(v, p, op)
 	out, err := json.Marshal(v)
 	if err != nil {
@@ -414,6 +418,36 @@ func driveC11(c *DriveCtx, r *Rng, k int) {
 		}
 		return
 	}
+	if r.Intn(16) == 0 {
+		// every top-level member of the body in turn replaced by an IRI the request itself works with (the receiving actor,
+		// its inbox, outbox and followers): identity coincidences between what is named and what is locked
+		base := mkBase()
+		knobs(base)
+		if base.Requests[0].Body != nil && base.Requests[0].Kind != "send" {
+			if bm, err := parseJ(base.Requests[0].Body); err == nil {
+				for _, key := range sortedKeys(bm) {
+					if key == "@context" || key == "type" {
+						continue
+					}
+					for _, op := range []string{"own-inbox", "own-actor", "own-outbox", "own-followers"} {
+						if c.Expired() {
+							return
+						}
+						sp := base.Clone()
+						var v interface{}
+						json.Unmarshal(sp.Requests[0].Body, &v)
+						sp.Requests[0].Body = mustJSON(setPath(v, jpath{key}, op))
+						sp.Gen += fmt.Sprintf(" own:%s=%s", key, op)
+						if r.Intn(3) == 0 {
+							addFollowUp(sp, base.Requests[0])
+						}
+						c.Exec(sp)
+					}
+				}
+			}
+		}
+		return
+	}
 	if r.Intn(5) == 0 {
 		// a body whose object carries a member of every literal kind of the vocabularies, with one hostile lexical form
 		sp := mkBase()
@@ -586,7 +620,7 @@ func init() {
 	register(&PropDef{
 		ID: "C11", Level: "exploration", Engine: "fedsim",
 		Rule: "case = one scenario of the side-effect corpus (every entry point, every handled activity type, delivery, forwarding, GETs) with one hostile input: a structure-aware mutation (each member down to depth 4 removed, nulled, emptied to [] / {} / \"\", replaced by a number, boolean, nested array, array wrap, object without id, relative reference, or the IRI of a missing / ill-typed / incomplete / non-object document) or raw byte damage (truncation, bit flip, whole-document replacement) applied to the request body, to a document returned by Transport.Dereference, or to a value returned by Database.Get/Followers/Following/Liked/GetInbox/GetOutbox; the well-formed body in its vocabulary-prefixed spelling (@context maps the namespace to an alias, alias:member, objects doubled), alone or further mutated; a clean follow-up request after the hostile one in a third to a half of the runs (what the hostile input left behind must not keep a later request from returning); plus per-run knobs (missing stored values answered by error or (nil, nil), Social-only / Federating-only actors, small recursion limits). Oracle = recover() around every task (any panic unwinding through the library is a violation), deadlock detection and a 20000-step budget ('fails to return'). distinct = distinct (scenario incl. mutation, event sequence).",
-		QuickCases: 6000, QuickBudgetS: 60, ThoroughBudgetS: 600,
+		QuickCases: 12000, QuickBudgetS: 150, ThoroughBudgetS: 600,
 		Drive: driveC11,
 		Assumptions: []string{"coverage-guided fuzzing of the JSON decoder on arbitrary bytes is another technique and is not part of this check: the decoder is reached only through the three seams (request body, dereferenced document, stored value)",
 			"a nil URL handed by the library to an application stub is recorded as a probe, not as a violation",
